@@ -746,11 +746,14 @@ func (cmd *Command) printDiagnostics(cs []*lint.Analyzer, diagnostics []diagnost
 		if diag.Category == "compile" && cmd.flags.debugNoCompileErrors {
 			continue
 		}
-		if diag.Severity == severityIgnored && !cmd.flags.showIgnored {
+		if diag.Severity == severityIgnored {
+			// Ignored problems are only printed on request. They never
+			// count as errors or warnings and keep their severity.
 			numIgnored++
-			continue
-		}
-		if shouldExit[makeCaseFoldedString(diag.Category)] {
+			if !cmd.flags.showIgnored {
+				continue
+			}
+		} else if shouldExit[makeCaseFoldedString(diag.Category)] {
 			numErrors++
 		} else {
 			diag.Severity = severityWarning
